@@ -12,7 +12,7 @@
 mod rng;
 mod c19;
 
-use c19::gen::{gen_case, Case, GenCfg, ALLOC_VALUES_SMALL};
+use c19::gen::{gen_case, gen_race_case, Case, GenCfg, ALLOC_VALUES_SMALL};
 use c19::model::*;
 use std::sync::atomic::{AtomicBool, AtomicU64, Ordering};
 use std::sync::{Arc, Mutex};
@@ -54,10 +54,18 @@ fn main() {
     let seed: u64 = args.get(1).and_then(|s| s.parse().ok()).unwrap_or(1);
     let case: Case = if let Some(json) = args.get(2).filter(|a| a.starts_with('{')) {
         serde_json::from_str(json).expect("scenario json")
+    } else if let Some(idx) = args.get(2).and_then(|a| a.strip_prefix("race:")).and_then(|n| n.parse::<usize>().ok()) {
+        // a first-use race on one setting (the settings are taken in turn)
+        let mut rng = rng::Rng::for_run(seed, "C19-miri-race", 0);
+        gen_race_case(&mut rng, Setting::ALL[idx % Setting::ALL.len()], &GenCfg { max_data: 48, max_declared: 4096, c_codecs: false, alloc_values: &ALLOC_VALUES_SMALL, validators: true })
     } else {
         let mut rng = rng::Rng::for_run(seed, "C19-miri", 0);
         gen_case(&mut rng, &GenCfg { max_data: 48, max_declared: 4096, c_codecs: false, alloc_values: &ALLOC_VALUES_SMALL, validators: args.get(2).map(|a| a == "validators").unwrap_or(false) })
     };
+    if args.iter().any(|a| a == "print") {
+        println!("PRINT-CASE {}", serde_json::to_string(&case).unwrap());
+        return;
+    }
     let h = run(&case);
     let overlaps = {
         let mut n = 0;
